@@ -216,4 +216,49 @@ Proof.
 Qed.
 Print Assumptions C17_tangent_normal_independent_of_evaluator.
 
+(* ====================== TRANSLATOR TIE (Proofs/GenTie*.v) ======================
+   coq/Gen/*.v is the Gallina rendering of the Python source produced by harness/pytrans.py; every run of ./check regenerates it
+   from /repo and compares it function by function with the committed text (evidence: translator_tie).  The theorems below say
+   that the hand-written model (the subject of the theorems above) computes, for ALL inputs satisfying the stated
+   well-formedness, exactly what the translated source computes.  This block stays LAST in the file: its imports shadow
+   model names. *)
+From Coq Require Import List QArith Reals Qreals Lia Lra Arith Bool ZArith.
+From NV Require Import Scalar.Ops Model.Common Model.Basis Model.Knots Model.KnotIns Model.KnotRem Model.LinAlg Model.Degree
+  Gen.Prelude Gen.LinalgInternal Gen.Linalg Gen.Knotvector Gen.Helpers
+  Proofs.GenTieSums Proofs.GenTieLinAlg Proofs.GenTieSubst Proofs.GenTieLU Proofs.GenTieLUSolve Proofs.GenTieKnotRem Proofs.GenTieDegree
+  Proofs.GenTieLib Proofs.GenTieKnots Proofs.GenTieSpan Proofs.GenTieBasis Proofs.GenTieBasisOne
+  Proofs.GenTieDersOne Proofs.GenTieDersLib Proofs.GenTieDers Proofs.GenTieKnotIns.
+Local Open Scope nat_scope.
+From NV Require Import Gen.PreludeExt Gen.LinalgMat Proofs.GenTieMat Proofs.GenTieMatSolve Proofs.GenTieBinom.
+From NV Require Import Gen.PreludeExt Gen.HelpersB Proofs.GenTieKnotRemove.
+From NV Require Import Gen.HelpersB Proofs.GenTieElev.
+From NV Require Import Model.Geom2D Model.Voxel Gen.PreludeExt Gen.LinalgGeom Gen.Voxelize Proofs.GenTieGeom Proofs.GenTieVoxel
+  Proofs.GenTieHull.
+From NV Require Import Model.Hull Gen.Utilities Proofs.GenTieBBox.
+From NV Require Import Model.Fit Gen.Fitting Proofs.GenTieFit.
+From NV Require Import Model.Derivs Proofs.GenTieDerivCpts.
+From NV Require Import Proofs.GenTieArr4 Proofs.GenTieDerivSurf.
+From NV Require Import Model.KnotRefine Proofs.GenTieRefine.
+From NV Require Import Model.Eval Gen.Evaluators Proofs.GenTieEvalLib Proofs.GenTieEvalCurve Proofs.GenTieEvalSurf Proofs.GenTieEvalVol.
+From NV Require Import Model.Derivs Gen.HelpersC Proofs.GenTieBinom Proofs.GenTieBasisAll Proofs.GenTieEvalDerivCurve Proofs.GenTieEvalDerivCurve2.
+From NV Require Import Proofs.GenTieEvalDerivSurf Proofs.GenTieEvalDerivSurfRat Proofs.GenTieEvalDerivSurf2.
 
+Theorem C17_gen_CurveEvaluator_evaluate_anyspan_R : forall (func : Z -> list R -> Z -> R -> gres Z) (dd : geomdata R)
+    (p : nat) (U : list R) (P : list (list R)) (n : Z) (start stop : R),
+  curve_dd dd p U P -> hd_error (geomdata_sample_size dd) = Some n ->
+  p < length P -> length P + p <= length U ->
+  (forall u, func (Z.of_nat p) U (Z.of_nat (length P)) u = GOk (Z.of_nat (Basis.find_span_linear Rops p U (length P) u))) ->
+  Evaluators.CurveEvaluator_evaluate Rops func dd start stop =
+  GOk (curve_evalpts Rops (lit_10e_8 Rops) (Z.to_nat (eval_dim dd)) p U P start stop (Z.to_nat n)).
+Proof. exact (@CurveEvaluator_evaluate_tie_gen _ Rops). Qed.
+Print Assumptions C17_gen_CurveEvaluator_evaluate_anyspan_R.
+Theorem C17_gen_CurveEvaluator_derivatives_anyspan_R : forall (func : Z -> list R -> Z -> R -> gres Z) (dd : geomdata R)
+    (p : nat) (U : list R) (P : list (list R)) (u : R) (order : nat),
+  curve_dd dd p U P -> p < length P -> length P + p <= length U ->
+  func (Z.of_nat p) U (Z.of_nat (length P)) u = GOk (Z.of_nat (Basis.find_span_linear Rops p U (length P) u)) ->
+  Evaluators.CurveEvaluator_derivatives Rops func dd u (Z.of_nat order) =
+  GOk (curve_derivs Rops (Z.to_nat (eval_dim dd)) p U P u order).
+Proof. exact (@CurveEvaluator_derivatives_tie_gen _ Rops). Qed.
+Print Assumptions C17_gen_CurveEvaluator_derivatives_anyspan_R.
+(* the two curve derivative algorithms are tied to DIFFERENT model functions (curve_derivs / curve_derivs2): their agreement is a
+   property of the model (Props/C02.v / C17.v), not of the tie *)
